@@ -90,9 +90,10 @@ def write_coqproject():
     return False
 
 
-def coq_build(jobs=16):
-    """Full .vo build of the development under a lock (make -k: a file that no longer
-    compiles stops only what depends on it); returns (all_ok, log)."""
+def coq_build(jobs=16, targets=None):
+    """Full .vo build under a lock (make -k: a file that no longer compiles stops only what
+    depends on it; every coqc under a timeout).  targets: list of .v paths relative to coq/
+    whose .vo (and dependencies) are wanted; None = everything.  Returns (all_ok, log)."""
     os.makedirs(WORK, exist_ok=True)
     with open(os.path.join(WORK, "build.lock"), "w") as lk:
         fcntl.flock(lk, fcntl.LOCK_EX)
@@ -102,7 +103,10 @@ def coq_build(jobs=16):
             rc, out = sh(["coq_makefile", "-f", "_CoqProject", "-o", "Makefile"], cwd=COQ)
             if rc != 0:
                 return False, out
-        rc, out = sh(["timeout", "2400", "make", "-k", f"-j{jobs}"], cwd=COQ, timeout=2500)
+        cmd = ["timeout", "2400", "make", "-k", f"-j{jobs}", "COQC=timeout 900 coqc"]
+        if targets:
+            cmd += [t[:-2] + ".vo" for t in targets]
+        rc, out = sh(cmd, cwd=COQ, timeout=2500)
         return rc == 0, out
 
 
